@@ -2,6 +2,13 @@
 import SalsaVerif.Props.C01
 import SalsaVerif.Props.C02
 import SalsaVerif.Props.C03
+import SalsaVerif.Props.C05
+import SalsaVerif.Props.C06
+import SalsaVerif.Props.C07
+import SalsaVerif.Props.C08
+import SalsaVerif.Props.C09
+import SalsaVerif.Props.C17
+import SalsaVerif.Props.C19
 import SalsaVerif.Props.C20
 import SalsaVerif.Props.C21
 import SalsaVerif.Props.C23
